@@ -194,6 +194,7 @@ type vRig struct {
 	broker    *httptest.Server
 	stunAddr  string
 	rng       uint64
+	nkind     map[string]int
 }
 
 func vGID() int64 {
@@ -205,6 +206,17 @@ func vGID() int64 {
 	}
 	id, _ := strconv.ParseInt(f[1], 10, 64)
 	return id
+}
+
+// variant picks the fault variant for the k-th occurrence of a fault kind: a
+// seeded start, then round robin, so that a run goes through all of them.
+func (r *vRig) variant(kind string, n int) int {
+	if r.nkind == nil {
+		r.nkind = map[string]int{}
+	}
+	k := r.nkind[kind]
+	r.nkind[kind]++
+	return (int(r.plan.Seed%uint64(n)) + k) % n
 }
 
 func (r *vRig) rand(n int) int {
